@@ -177,9 +177,11 @@ def corrTest (x y : List Rat) (stat : List Rat → List Rat → Rat) (alt : Alt)
   { p := corrPValue alt plus1 reps up dn, hitsUp := up, hitsDn := dn, obs := obs, dist := dist,
     args := args }
 
-/-- ranks 1..n of tie-free values: 1 + number of strictly smaller entries -/
+/-- scipy `rankdata` (method 'average'): number of strictly smaller entries plus the mean position inside the
+    block of entries equal to the value — `#{u < v} + (#{u = v} + 1)/2`; for tie-free data `1 + #{u < v}` -/
 def ranks (x : List Rat) : List Rat :=
-  x.map (fun v => ((1 + x.countP (fun u => decide (u < v)) : Nat) : Rat))
+  x.map (fun v => ((x.countP (fun u => decide (u < v)) : Nat) : Rat)
+                  + (((x.countP (fun u => decide (u = v)) : Nat) : Rat) + 1) / 2)
 
 def spearmanTest (x y : List Rat) (alt : Alt) (plus1 : Bool) (draws : List (List Nat)) : OSOut :=
   corrTest (ranks x) (ranks y) pearsonKey alt plus1 draws
